@@ -580,9 +580,26 @@ def _eval_case(case, wall: float = WALL):
         return {'harness_error': f'{type(e).__name__}: {e}', 'tb': traceback.format_exc()[-2000:]}
 
 
+def _preload():
+    """Import everything a case needs BEFORE the fork pool starts / the wall-clock guard is armed: on a loaded machine the
+    first case of a worker otherwise spends its guard importing the library, and an alarm raised inside an import leaves
+    half-initialised modules behind (seen as `module aiohttp has no attribute typedefs`)."""
+    import aiofiles  # noqa: F401
+    import aioslsk.events  # noqa: F401
+    import aioslsk.exceptions  # noqa: F401
+    import aioslsk.protocol.messages  # noqa: F401
+    import aioslsk.settings  # noqa: F401
+    import aioslsk.transfer.manager  # noqa: F401
+    import aioslsk.transfer.model  # noqa: F401
+    import aioslsk.transfer.state  # noqa: F401
+    import aioslsk.user.model  # noqa: F401
+    import vlib.xferrig  # noqa: F401
+
+
 def _eval_all(cases: list) -> tuple[list, int]:
     """Evaluates the cases in growing batches; a wall-guard hit is confirmed by a second, serial run with a longer
     guard; after MAX_HANGS confirmed hangs the remaining cases are not run (returns results, number skipped)."""
+    _preload()
     out: list = []
     hangs = 0
     i = 0
@@ -1326,6 +1343,7 @@ class C06(Property):
         return res
 
     def replay(self, case):
+        _preload()
         io = _eval_case(case)
         if io.get('harness_error'):
             raise RuntimeError(io['harness_error'] + '\n' + io.get('tb', ''))
